@@ -7,8 +7,7 @@ are the spec's own laws (the oracle's sanity) and persistence in the machine; th
 arrays / ordered maps, in memory, in place in storage, reloaded in later transactions) behaves like the
 spec is shown by refinement testing in the `cont` stream.  Level: proof (spec machine) + CC.
 -/
-import Verif.Proofs.Containers
-import Verif.Model.Cont
+import Verif.Proofs.ContMachine
 namespace Verif.Properties.C20
 open Verif.Spec.Containers Verif.Proofs.Containers
 
@@ -126,36 +125,15 @@ theorem keys_values_consistent (d : Dict κ ν) (hw : DWF d) :
 end Dict
 
 /-! ### the machine of the `cont` stream -/
-open Verif.Model.Cont
+open Verif.Model.Cont Verif.Proofs.ContMachine
 
-/-- the dictionary of a container is well-formed -/
-def CWF : Cont → Prop
-  | .arr _ => True
-  | .dict d => DWF d
+/-- Keys stay distinct along every operation, every transaction and every history (so
+    `keys_values_consistent` applies to every dictionary reachable from the empty one). -/
+theorem step_preserves_wf (c c' : Cont) (op : Op) (o : Obs) (hw : CWF c) (h : stepT c op = .ok (c', o)) : CWF c' :=
+  step_wf c c' op o hw h
 
-/-- Keys stay distinct along every operation sequence (so `keys_values_consistent` applies to every
-    reachable dictionary). -/
-theorem step_preserves_wf (c c' : Cont) (op : Op) (o : Obs) (hw : CWF c) (h : stepT c op = .ok (c', o)) : CWF c' := by
-  cases c with
-  | arr xs =>
-    simp only [stepT, step] at h
-    cases hx : arrStep xs op with
-    | none => simp [hx] at h; rw [← h.1]; trivial
-    | some r =>
-      cases r with
-      | error e => simp [hx, Except.map] at h
-      | ok p => simp [hx, Except.map] at h; rw [← h.1]; trivial
-  | dict d =>
-    simp only [stepT, step] at h
-    cases op with
-    | dInsert k v => simp [dictStep] at h; obtain ⟨rfl, _⟩ := h; exact dwf_put d _ _ hw
-    | dRemove k => simp [dictStep] at h; obtain ⟨rfl, _⟩ := h; exact dwf_erase d _ hw
-    | dWrite k v =>
-      simp [dictStep] at h; obtain ⟨rfl, _⟩ := h
-      cases v with
-      | none => exact dwf_erase d _ hw
-      | some v => exact dwf_put d _ _ hw
-    | _ => simp [dictStep] at h <;> (obtain ⟨rfl, _⟩ := h; exact hw)
+theorem reachable_dict_wf (h : List (List Op)) : CWF (runHist stepT (.dict []) h).1 :=
+  runHist_wf _ h dwf_nil
 
 /-- Persistence: a history all of whose transactions commit — the container being stored at the end of
     each and reloaded at the start of the next — produces exactly the observations and the final
